@@ -170,6 +170,11 @@ def rooted_names(root):
     out = []
     for r in rootinfo(root).dirs:
         bases = [r, r.rstrip("/"), os.path.dirname(r), r[:-1], r + "/", "/" + r]
+        # the root spelled in another letter case (a different directory on a case-sensitive file system), incl. characters
+        # whose lower() / upper() / casefold() collide with ASCII letters
+        for v in (r.upper(), r.swapcase(), r.title(), r.lower(), r.replace("w", "W", 1), r.replace("s", "\u017f"), r.replace("k", "\u212a"), r.replace("w", "\uff57")):
+            if v != r and v not in bases:
+                bases.append(v)
         for base in bases:
             for b in (base, base.replace("/", "\\")):
                 for suf in ROOTED_SUFFIXES:
